@@ -25,8 +25,10 @@ def _fpuf(name,nargs):
     import z3 as _z
     return _z.Function(name,_z.BitVecSort(2),*([_z.BitVecSort(64)]*(nargs+1)))
 FPUF={}
+CONCRETE_FP=[None]      # set by engine/x86native for the concrete (model validation) mode
 def fpop(name,rm,*args):
     """IEEE double operation as an uninterpreted function of (rounding mode, operand bit patterns)"""
+    if CONCRETE_FP[0] is not None and is_c(rm) and all(is_c(a) for a in args): return CONCRETE_FP[0](name,rm,args)
     f=FPUF.get(name)
     if f is None: f=FPUF[name]=_fpuf(name,len(args))
     args=[bv(a,64) for a in args]
@@ -306,7 +308,7 @@ class Mem:
         for k in range(nbytes):
             b=o['bytes'].get(p.off+k)
             if b is None:
-                b=z3.BitVec('%s_%d'%(p.obj,p.off+k),8); o['bytes'][p.off+k]=b
+                b=o['default'](p.off+k) if 'default' in o else z3.BitVec('%s_%d'%(p.obj,p.off+k),8); o['bytes'][p.off+k]=b
             bs.append(b)
         if all(is_c(b) for b in bs): return sum(b<<(8*k) for k,b in enumerate(bs))
         return z3.Concat(*[bv(b,8) for b in reversed(bs)]) if nbytes>1 else bs[0]
